@@ -29,7 +29,7 @@ Record cfg := mkCfg {
                                (proposed notes/fix_C05_3.diff); false: it recurses on ->next (code as of /repo HEAD) *)
   cfg_ext : list Z;         (* the security types of the four application handler objects (ids 2..5) *)
   cfg_udp_gated : bool;     (* true: rfbProcessUDPInput drops datagrams on a screen that requires a password
-                               (proposed notes/fix_C05_4.diff); false: /repo HEAD, every well-formed datagram is input *)
+                               (commit 93b245e = notes/fix_C05_4.diff); false: the code before it, every well-formed datagram is input *)
   cfg_tight : bool          (* true: object 2 is the library's own tightVncSecurityHandler (type 16), registered by
                                rfbRegisterTightVNCFileTransferExtension: choosing it starts the nested TightVNC
                                tunneling / authentication-capability negotiation of rfbtightserver.c *)
@@ -37,7 +37,7 @@ Record cfg := mkCfg {
 Definition default_ext : list Z := [16%Z; 30%Z; c05_rfbSecTypeVncAuth; c05_rfbSecTypeNone].
 (* the code with fixes 1 and 2, parametrised by the list-handling variant and the application types *)
 Definition cfgF (single : bool) (ext : list Z) (tight : bool) : cfg := mkCfg false false single ext true tight.
-(* the same code with the UDP input path as it is at /repo HEAD (no notes/fix_C05_4.diff) *)
+(* the same code with the UDP input path as it was before 93b245e: regression witness only *)
 Definition cfgU (single : bool) (ext : list Z) (tight : bool) : cfg := mkCfg false false single ext false tight.
 Definition cfg_fixed : cfg := cfgF false default_ext false.     (* fixes 1+2, list handling before 019f1b9: regression witness *)
 Definition cfg_fixed3 : cfg := cfgF true default_ext false.     (* /repo HEAD (019f1b9 = notes/fix_C05_3.diff) *)
